@@ -3,6 +3,7 @@
    Every statement holds for an arbitrary oracle. *)
 From Coq Require Import ZArith List Bool.
 From V Require Import Model.Gate Proofs.GateProofs.
+From V Require Import Generated.GateGen Proofs.GateGenProofs.
 Import ListNotations.
 Open Scope Z_scope.
 
@@ -87,3 +88,30 @@ Example C04_nonvacuous :
   [Some (Err DataSufficiency); Some Fitted; None; Some (Err Disqualified); Some Frame] /\
   m_dq (fst (run (fun _ => true) Daily (unfitted false) [OFit ex_short true; OReload])) = [7; POOR_FIT].
 Proof. vm_compute. split; reflexivity. Qed.
+
+(* ---- tie to the source, regenerated on every run (kept last: a source edit that reorders, removes or re-targets a
+   guard changes Generated/GateGen.v and breaks exactly these obligations; the theorems above are about Model/Gate.v
+   and stay checked) *)
+Theorem C04_predict_is_the_source_guard_sequence : forall f s d i,
+  predict f s d i = interp_predict f (predict_guards f) s d i.
+Proof. exact predict_is_guard_sequence_l. Qed.
+Print Assumptions C04_predict_is_the_source_guard_sequence.
+
+Theorem C04_fit_is_the_source_guard_sequence : forall poor f s d i,
+  match interp_fit f (fit_guards f) s d i with
+  | Some e => fit poor f s d i = (s, Err e)
+  | None => snd (fit poor f s d i) = Fitted
+  end.
+Proof. exact fit_is_guard_sequence_l. Qed.
+Print Assumptions C04_fit_is_the_source_guard_sequence.
+
+(* non-vacuity: the generated lists are not empty and every family's list ends behind the type and disqualification guards *)
+Example C04_source_guards_present :
+  forallb (fun f => existsb (fun g => match g with PDisq => true | _ => false end) (predict_guards f) &&
+                    existsb (fun g => match g with PType => true | _ => false end) (predict_guards f) &&
+                    existsb (fun g => match g with PTz => true | _ => false end) (predict_guards f) &&
+                    existsb (fun g => match g with PUnfitted => true | _ => false end) (predict_guards f) &&
+                    existsb (fun g => match g with FDisq => true | _ => false end) (fit_guards f) &&
+                    existsb (fun g => match g with FType => true | _ => false end) (fit_guards f))
+          [Daily; Billing; Hourly] = true.
+Proof. vm_compute. reflexivity. Qed.
